@@ -169,11 +169,16 @@ def run_batch(check, prop: str, tier: str, seed: int, runs: int, budget: float, 
             results.setdefault(r, []).append(ev)
             agg["runs"] += 1
             agg["stats"].update(ev.get("stats", {}))
-            if ev.get("shape"):
+            if ev.get("shapes"):
+                agg["shapes"].update(ev["shapes"])
+            elif ev.get("shape"):
                 agg["shapes"].add(ev["shape"])
             if ev.get("nt"):
                 agg["nontrivial"] += 1
-                agg["nt_shapes"].add(ev.get("shape") or "r%d" % r)
+                if ev.get("shapes"):
+                    agg["nt_shapes"].update(ev["shapes"])
+                else:
+                    agg["nt_shapes"].add(ev.get("shape") or "r%d" % r)
             for v in ev.get("viol", []):
                 agg["viol"].append({"r": r, "hashseed": int(ev["hashseed"]), "v": v, "scn": ev.get("scn")})
             if ev.get("scn") is not None and not ev.get("viol") and len(agg["samples"]) < 3:
